@@ -63,6 +63,29 @@ def run(pid, tier, seed, *, emitters, extras, sig, rule, assumptions, trace_modu
         rej, acc, res = tracecheck.validate(trace_module, TRACE_CFG, out, sc, "tr" + pid, chunk=chunk)
         if any(isinstance(p, dict) and p.get("tag") == "LEMMA" for r in res for p in r.prints):
             raise core.MachineryError("a lemma of the oracle (twin records) does not hold: the specification is inconsistent")
+        import copy
+        badt = {x["tid"] for x in rej}
+        st_recs, seen_kinds = [], set()
+        for k, r in enumerate(out):
+            if k in badt or r.get("exc") or r.get("kind") in seen_kinds:
+                continue
+            c = copy.deepcopy(r)
+            try:
+                if r["kind"] in ("operator", "equation", "net"):
+                    c["obs"][0][0]["n"] += c["obs"][0][0]["d"]
+                elif r["kind"] in ("loss", "sysloss"):
+                    c["obs"]["total"]["n"] += c["obs"]["total"]["d"]
+                elif r["kind"] == "fwdrev":
+                    c["fwd"][0][0]["n"] += c["fwd"][0][0]["d"]
+                elif r["kind"] == "grad":
+                    c["obs"]["grad"][0][0]["n"] += c["obs"]["grad"][0][0]["d"]
+                else:
+                    continue
+            except (IndexError, KeyError, TypeError):
+                continue
+            seen_kinds.add(r["kind"])
+            st_recs.append((c, None, f"observed value of a {r['kind']} record shifted by one"))
+        nself = tracecheck.selftest(trace_module, TRACE_CFG, st_recs, sc, "st" + pid)
         viol = []
         for x in rej:
             r = out[x["tid"]]
@@ -86,7 +109,7 @@ def run(pid, tier, seed, *, emitters, extras, sig, rule, assumptions, trace_modu
             samples=[core.clip(r, 1500) for r in out[:: max(1, len(out) // 3)][:3]], exhaustive=bool(exhaustive and n_tlc == n_enum),
             evaluations=len(out), distinct_nontrivial=len(distinct),
             configurations_enumerated_by_tlc=n_enum, configurations_replayed=n_tlc, extra_seeded_records=len(out) - n_tlc, emitters=mc_info,
-            records_rejected=len(rej), rejected_by_clause=clauses, known_finding_hits=n_known, rule=rule)
+            records_rejected=len(rej), rejected_by_clause=clauses, known_finding_hits=n_known, binding_selftests_rejected=nself, rule=rule)
         core.write_evidence(pid, tier, seed, level, cov, assumptions, time.time() - t0, n_new)
         print(f"{pid} [{tier}] configs(TLC)={n_tlc} extras={len(out) - n_tlc} accepted={acc} rejected={len(rej)} "
               f"(new={n_new} known={n_known}) wall={time.time() - t0:.0f}s")
